@@ -678,6 +678,16 @@ def main():
     sc = json.load(open(sys.argv[1]))
     world = World(sc)
     out_path = sys.argv[2]
+    if sc.get("prior_failed_run"):
+        # the runtime object has a history: an earlier blocking run on the very same object that ended by a
+        # payload failure (nothing of it is logged; afterwards the object is used as if it were new)
+        async def prior_boom():
+            raise KeyError("payload of the earlier run")
+        try:
+            world.runner(0).adopt(prior_boom, flavour=asyncio)
+            world.runner(0).accept()
+        except BaseException:
+            pass
     # before the first accept: queued payloads, early services
     for st in sc.get("before", []):
         world.control([st])
